@@ -49,7 +49,11 @@ def _as_src(s):
     return s
 
 
-def cases_for_graph(ctx, a, rng, source_sets, full=True, transposes=False, forms=None, orders=None, bfs_nodes=None):
+ORDER_DTYPES = ['int64', 'int32', 'int16', 'int8', 'uint8', 'uint16', 'uint32', 'uint64']
+
+
+def cases_for_graph(ctx, a, rng, source_sets, full=True, transposes=False, forms=None, orders=None, bfs_nodes=None,
+                    order_dtypes=None):
     """All request lines for one square matrix `a` (csr) and the given source sets."""
     from sknetwork.path import get_distances, get_shortest_path, breadth_first_search, get_dag
     n = a.shape[0]
@@ -113,6 +117,7 @@ def cases_for_graph(ctx, a, rng, source_sets, full=True, transposes=False, forms
         out.append(Case(('bfs', g, s), {'entry': 'breadth_first_search'}, run, impl, spec, a.nnz > 0,
                         {'f': 'breadth_first_search', 'graph': gdesc, 'source': s}, canon='bfs'))
     # get_dag with explicit orders (ties, negatives) and the default order
+    auto_orders = orders is None
     if orders is None:
         orders = [None]
         for _ in range(2 if full else 1):
@@ -127,15 +132,29 @@ def cases_for_graph(ctx, a, rng, source_sets, full=True, transposes=False, forms
                 orders.append([rng.choice([-2, 0, 5])] * n)                 # all equal
             elif kind == 3:
                 orders.append([rng.choice([-1, 4 * 10 ** 12, 7]) for _ in range(n)])
+    order_dtypes = dict(order_dtypes or {})
+    if auto_orders and n > 0:
+        # the same order values in another integer dtype (unsigned ones for non-negative orders): the comparison
+        # 0 <= order[i] < order[j] is about the values, whatever the dtype they are stored in
+        orders.append([rng.randint(0, n + 2) for _ in range(n)])
+        for o in orders[1:]:
+            fits = [dt for dt in ORDER_DTYPES if np.iinfo(dt).min <= min(o) and max(o) <= np.iinfo(dt).max]
+            if fits and rng.random() < 0.75:
+                order_dtypes[tuple(o)] = rng.choice(fits)
     for o in orders:
+        odt = None if o is None else order_dtypes.get(tuple(o))
+
         def f5():
-            return 'ok ' + _enc_pairs(get_dag(a, order=None if o is None else np.array(o)))
+            return 'ok ' + _enc_pairs(get_dag(a, order=None if o is None else (np.array(o) if odt is None else
+                                                                               np.array(o, dtype=odt))))
         impl = _call(f5)
+        if odt is not None:
+            ctx.count('get_dag:order-dtype:' + odt)
         run = 'c10.dag %s _ %s' % (gsq, '_' if o is None else enc_list(o))
         oo = list(range(n)) if o is None else o
         spec = 'c10.spec_dag %s %s %s' % (gsq, enc_list(oo), impl[3:]) if impl.startswith('ok ') else None
-        out.append(Case(('dag', g, None if o is None else tuple(o)), {'entry': 'get_dag', 'mode': 'order'}, run, impl,
-                        spec, a.nnz > 0, {'f': 'get_dag', 'graph': gdesc, 'order': o}))
+        out.append(Case(('dag', g, None if o is None else tuple(o), odt), {'entry': 'get_dag', 'mode': 'order'}, run, impl,
+                        spec, a.nnz > 0, {'f': 'get_dag', 'graph': gdesc, 'order': o, 'order_dtype': odt}))
     return out
 
 
@@ -457,7 +476,8 @@ def _cases_of(ctx, case, neighbourhood=True):
         gd = case['graph']
         a = _matrix_of(gd, (gd['n'], gd['n']))
         if 'order' in case:
-            cs += cases_for_graph(ctx, a, rng, [], full=False, orders=[case['order']], bfs_nodes=[])
+            cs += cases_for_graph(ctx, a, rng, [], full=False, orders=[case['order']], bfs_nodes=[],
+                                  order_dtypes={tuple(case['order']): case.get('order_dtype')} if case['order'] is not None else None)
         elif isinstance(case.get('source'), list):
             s = case['source']
             cs += cases_for_graph(ctx, a, rng, [s], full=True, forms={tuple(s): case.get('form')}, orders=[], bfs_nodes=[])
